@@ -181,8 +181,10 @@ func (fr *frame) checkAsserts(anchor string, st *State) {
 func (fr *frame) declaredMods(m ModSpec, ctx *specCtx) []declMod {
 	vc := fr.vc()
 	switch m.Kind {
-	case "all", "heap":
+	case "all":
 		return []declMod{{key: "*"}}
+	case "heap":
+		return []declMod{{key: "*heap"}}
 	case "ghost":
 		if g := fr.enc.db.Ghosts[m.Name]; g != nil {
 			return []declMod{{key: vc.keyGhost(g)}}
